@@ -1,5 +1,5 @@
 """Per-property text for MANIFEST.json."""
-HOOK_COMMITS = ["cc08f79"]
+HOOK_COMMITS = ['cc08f79']
 
 NOT_CLAIMED = {}
 
